@@ -192,11 +192,22 @@ func (ex *Exec) verifyFunction(fn *ssa.Function, c *Contract) {
 	ex.topArgs = args
 	nret := 0
 	ex.keepTopFrame = true
+	var coverPaths [][]*Term
 	ex.runFunc(st, fn, args, func(post *State, res []Value) {
 		nret++
+		if len(coverPaths) < 40 {
+			coverPaths = append(coverPaths, append([]*Term(nil), post.pc...))
+		}
 		ex.atReturn(fn, c, pre, post, vars, res)
 	})
 	ex.keepTopFrame = false
+	// semantic vacuity guard: the assumptions (requires, prelude axioms, callee contracts, loop invariants) along at
+	// least one return path must not be contradictory - from a contradiction every clause would "hold"
+	if nret > 0 {
+		ex.obls = append(ex.obls, &Obligation{Name: c.Key + "#cover@return", Kind: "cover", Props: propSet(allProps(c)), Fn: c.Key, Goal: TFalse,
+			coverPaths: coverPaths, Without: c.Without,
+			Note: "the facts assumed along every explored return path are contradictory (requires clauses, callee contracts or invariants exclude every execution): nothing is proved about this function"})
+	}
 	// vacuity guard: a function none of whose paths reaches a return proves nothing
 	vac := &Obligation{Name: c.Key + "#reachable-return", Kind: "vacuity", Props: propSet(allProps(c)), Fn: c.Key, Goal: Bool(nret > 0),
 		Note: "no return path could be explored (every path ends in an unsupported or rejected construct): the function is not verified"}
